@@ -61,10 +61,16 @@ ID_BASES = {"1e5": 100000, "1e6": 1000000, "date": 2309150, "2p24": 2 ** 24 - 4,
 def plan(tier):
     if tier == "quick":
         return dict(n_cases=920, shards=4, classes=CLASSES, timeout_s=900,
-                    min_evals={"oob_upper_survivors": 1, "oob_lower": 1},
+                    min_evals={"oob_upper_survivors": 1000, "oob_lower": 1000, "trim_exact": 450, "trim_start_111": 70, "dist_exact": 430,
+                               "mask_exact": 600, "oob_repr_invariance": 250, "trim_compose": 110, "dist_union_monotone": 55,
+                               "mask_complement": 110, "dist_exact_ties_removed": 45, "dims_unchanged": 270, "dist_file": 90,
+                               "mask_file": 130, "dist_last_rows_decide": 40},
                     min_known={"oob-lower-face": 50})
     return dict(n_cases=9660, shards=16, classes=CLASSES, timeout_s=3000,
-                min_evals={"oob_upper_survivors": 1, "oob_lower": 1},
+                min_evals={"oob_upper_survivors": 10000, "oob_lower": 10000, "trim_exact": 4500, "trim_start_111": 700, "dist_exact": 4300,
+                           "mask_exact": 6000, "oob_repr_invariance": 2500, "trim_compose": 1100, "dist_union_monotone": 550,
+                           "mask_complement": 1100, "dist_exact_ties_removed": 450, "dims_unchanged": 2700, "dist_file": 900,
+                           "mask_file": 1300, "dist_last_rows_decide": 400},
                 min_known={"oob-lower-face": 500})
 
 
@@ -996,6 +1002,8 @@ def run_dist(ctx, case):
         return
     of = os.path.join(ctx.scratch, "dist_%d.em" % case["i"]) if case["out_file"] else None
     R = removed_by(P, case["r"], case["inplace"], of, case["kw"])
+    if R is not None and case["big"]:     # large point sets once more, other (inplace, output_file) combination
+        removed_by(P, case["r"], not case["inplace"], None if of else os.path.join(ctx.scratch, "dist_%d_b.em" % case["i"]), not case["kw"])
     if R is None or case["big"] or len(P) == 0:
         return
     if (case["i"] // len(CLASSES)) % 3 == 1:
